@@ -1,14 +1,27 @@
 //! `wfh <family> <seed> <n> <outdir>`: runs the real winterfell crates on generated inputs.
 //! Writes `<outdir>/<family>.qa` (Q/A line pairs, see `out.rs`) and `<outdir>/<family>.stats.json`.
+mod c08;
 mod c10;
 mod c11;
+mod c12;
+mod c13;
 mod c14;
+mod c15;
+mod c18;
+mod c20;
 mod c21;
+mod c22;
+mod c23;
+mod c25;
 mod c26;
 mod c27;
+mod c29;
+mod genair;
 mod obj;
 mod out;
+mod protocol;
 mod rng;
+mod tamper;
 
 fn main() {
     let args: Vec<String> = std::env::args().collect();
@@ -25,15 +38,36 @@ fn main() {
     let mut rng = rng::Rng::new(seed ^ fam.bytes().fold(0u64, |a, b| a.wrapping_mul(131).wrapping_add(b as u64)));
     let mut out = out::Out::new(&format!("{outdir}/{fam}.qa"));
     match fam {
+        "c08" => c08::run(&mut rng, &mut out, n),
+        "c09" => c08::run_c09(&mut rng, &mut out, n),
         "c10" => c10::run(&mut rng, &mut out, n),
         "c11" => c11::run(&mut rng, &mut out, n),
+        "c12" => c12::run(&mut rng, &mut out, n),
+        "c13" => c13::run(&mut rng, &mut out, n),
         "c14" => c14::run(&mut rng, &mut out, n),
+        "c15" => c15::run(&mut rng, &mut out, n),
+        "c17" => c15::run_c17(&mut rng, &mut out, n),
+        "c18" => c18::run(&mut rng, &mut out, n),
+        "c20" => c20::run(&mut rng, &mut out, n),
+        "c19" => c18::run_c19(&mut rng, &mut out, n),
         "c21" => c21::run(&mut rng, &mut out, n),
+        "c22" => c22::run(&mut rng, &mut out, n),
+        "c23" => c23::run(&mut rng, &mut out, n),
+        "c25" => c25::run(&mut rng, &mut out, n),
         "c26" => c26::run(&mut rng, &mut out, n),
         "obj" => obj::run(&mut rng, &mut out, n),
+        "c01" => protocol::run_c01(&mut rng, &mut out, n),
+        "c02" => protocol::run_c02(&mut rng, &mut out, n),
+        "c03" => tamper::run_c03(&mut rng, &mut out, n),
+        "c03t" => tamper::run_c03t(&mut rng, &mut out, n),
+        "c04" => tamper::run_c04(&mut rng, &mut out, n),
+        "c05" => tamper::run_c05(&mut rng, &mut out, n),
+        "c06" => tamper::run_c06(&mut rng, &mut out, n),
         "objseed" => obj::run_seed(&mut rng, &mut out, n),
         "c27" => c27::run(&mut rng, &mut out, n),
         "c27x" => c27::run_exhaustive(&mut out, n),
+        "c29" => c29::run(&mut rng, &mut out, n),
+        "c29t" => c29::run_table(&mut rng, &mut out, n),
         _ => {
             eprintln!("unknown family {fam}");
             std::process::exit(2);
